@@ -490,6 +490,86 @@ def label_characteristics(ck, rule):
                 ok = ok or any(x[0] == "attr" and x[2] == "reference" for x in T.subterms(pos))
     ck.judge(ok, rule, short(a) + ":axis", a.where, "the reference characteristics list reference labels",
              found="no .reference label in the positions list" if not ok else None)
+    label_table_members(ck, rule)
+
+
+def label_table_members(ck, rule):
+    """Which positions of a segment are labels of its reference (query) table: every aligned pair, and every unpaired label of that
+    side - a ScoredNotAlignedPosition *wrapping* a NotAlignedReference(Query)Position. The two overlapping segments are cut at
+    'the k-th label' of these tables; a table that leaves the unpaired labels out counts different physical labels in the two
+    segments, and a label stays in both."""
+    from ..rules.common import explore as _explore
+    p = ck.ctx.p
+    seg = p.find_class("AlignmentSegment")
+    n_paths = 0
+    for side, meth in (("reference", "getReferenceLabels"), ("query", "getQueryLabels")):
+        fn = seg.methods.get(meth)
+        own = lambda callee, fn=fn: callee.cls is fn.cls and callee.name.startswith("_") and not callee.name.startswith("__init")
+        E = None
+        kinds = {"pair": [], "unpaired": [], "wrapper-test": [], "other-side": [], "none": [], "unknown": []}
+        wanted_cls = "NotAligned" + side.capitalize() + "Position"
+        for pa in _explore(ck, fn, unroll=(1,), follow=own):
+            if pa.outcome != "return" or pa.value[0] != "new":
+                continue
+            n_paths += 1
+            args = dict(pa.value[2])
+            pos = args.get("positions")
+            if pos is None or pos[0] != "list":
+                raise AnalysisError(f"{where(fn, pa.node)}: label list of the characteristics not recognised: {T.show(pa.value)[:160]}")
+            true_tests = []
+            for c, tv, _ in pa.state.assumptions:
+                cs = list(c[1]) if c[0] == "and" else [c]
+                if tv:
+                    true_tests.extend(cs)
+            if not pos[1]:
+                kinds["none"].append(pa)
+                continue
+            lab = pos[1][0]
+            elem = [x for x in T.subterms(lab) if x[0] == "elem"]
+            if not elem:
+                kinds["unknown"].append((pa, lab))
+                continue
+            E = elem[0]
+
+            def tested(obj, cls_suffix):
+                return any(t[0] == "call" and t[1] == "isinstance" and t[2][0] == obj and
+                           any(y[0] == "cls" and y[1].endswith(":" + cls_suffix) for y in T.subterms(t[2][1])) for t in true_tests)
+            other = "query" if side == "reference" else "reference"
+            if lab == T.mk_attr(E, side):
+                kinds["pair"].append(pa)
+            elif lab == T.mk_attr(T.mk_attr(E, "position"), side):
+                if tested(T.mk_attr(E, "position"), wanted_cls):
+                    kinds["unpaired"].append(pa)
+                elif tested(E, wanted_cls):
+                    kinds["wrapper-test"].append(pa)
+                else:
+                    kinds["unknown"].append((pa, lab))
+            elif lab in (T.mk_attr(E, other), T.mk_attr(T.mk_attr(E, "position"), other)):
+                kinds["other-side"].append(pa)
+            else:
+                kinds["unknown"].append((pa, lab))
+        w = fn.where
+        for pa in kinds["wrapper-test"]:
+            ck.violation(rule, short(fn) + ":unpaired-labels", where(fn, pa.node),
+                         f"an unpaired {side} label is recognised by isinstance(<position>, {wanted_cls}) on the scored position itself: "
+                         "segment positions are ScoredNotAlignedPosition wrappers (the label is in .position), so the test never holds "
+                         f"and the {side} table holds pairs only - two overlapping segments are then cut at different physical labels",
+                         found="isinstance(position, " + wanted_cls + ")",
+                         required=f"isinstance(position, ScoredNotAlignedPosition) and isinstance(position.position, {wanted_cls})")
+        for pa in kinds["other-side"]:
+            ck.violation(rule, short(fn) + ":side", where(fn, pa.node), f"the {side} table lists labels of the other map",
+                         found=T.show(dict(pa.value[2]).get("positions"))[:120])
+        if kinds["unknown"]:
+            pa, lab = kinds["unknown"][0]
+            raise AnalysisError(f"{where(fn, pa.node)}: a member of the {side} label table is not recognised: {T.show(lab)[:120]}")
+        ck.judge(bool(kinds["pair"]), rule, short(fn) + ":pairs", w, f"every aligned pair is a label of the {side} table",
+                 found=f"{len(kinds['pair'])} path(s)")
+        if not kinds["wrapper-test"]:
+            ck.judge(bool(kinds["unpaired"]), rule, short(fn) + ":unpaired-labels", w,
+                     f"every unpaired {side} label inside the segment is a label of the {side} table (the overlap is counted in labels)",
+                     found=f"{len(kinds['unpaired'])} path(s) append position.position.{side}",
+                     required=f"a ScoredNotAlignedPosition wrapping a {wanted_cls} is appended")
+    ck.floor(f"{rule} return paths of the label tables", n_paths, 6)
 
 
 def overlap_test(ck, rule="C15.6"):
